@@ -57,6 +57,11 @@ pub fn packed_families() -> Vec<Fam> {
         fam("m2-crossed-nybbles", vec![vec![0x61, 0x62], vec![0x71, 0x62], vec![0x61, 0x72], vec![0x62, 0x61]]),
         fam("m2-twelve", (0..12u8).map(|i| vec![b'a' + (i % 4), b'a' + (i / 4)]).collect()),
         fam("m2-aa", vec![b("aa"), b("aab"), b("ba")]),
+        // duplicates: "ties to the one supplied first" (both kinds)
+        fam("m2-dups", vec![b("ab"), b("ab"), b("abc"), b("abc"), b("b"), b("b")]),
+        fam("m4-dups-24", (0..24usize).map(|i| { let k = i % 8; vec![b'a' + (k % 3) as u8, b'b' + (k / 3) as u8, b'c', b'd'] }).collect()),
+        fam("m3-dups-64-mixed-lengths", (0..64usize).map(|i| { let k = (i * 7) % 16; let mut p = vec![b'a' + (k % 4) as u8, b'e' + (k / 4) as u8, b'x']; p.extend(std::iter::repeat(b'y').take(k % 4)); p }).collect()),
+        fam("m3-dups-40", (0..40usize).map(|i| { let k = (i * 7) % 10; vec![b'a' + (k % 5) as u8, b'a' + (k / 5) as u8, b'x'] }).collect()),
         // fingerprint length 3
         fam("m3-single", vec![b("abc")]),
         fam("m3-shifted", vec![b("abc"), b("bcd"), b("cde")]),
@@ -540,6 +545,7 @@ pub fn prefilter_families() -> Vec<PFam> {
         pfam("packed-3x3", vec![b("ab"), b("cd"), b("ef")], false),
         pfam("packed-overlap", vec![b("abcd"), b("bc"), b("cdx"), b("dab")], false),
         pfam("packed-prefix", vec![b("ab"), b("abc"), b("bcd"), b("cda")], false),
+        pfam("packed-dups", vec![b("foo"), b("foo"), b("bar"), b("barq"), b("bar"), b("quux"), b("zap"), b("quux")], false),
         pfam("packed-shadowed", vec![b("sam"), b("samwise"), b("frodo"), b("gandalf"), b("pippin")], false),
         pfam("packed-shadowed-2", vec![b("ab"), b("abc"), b("cd"), b("ef"), b("gh"), b("cde")], false),
         pfam("packed-mask4", vec![b("abcd"), b("wxyz"), b("mnop"), b("qrst"), b("efgh")], false),
